@@ -96,12 +96,21 @@ JOBS["C07"] = [
     H("continuity", "beaconnet", "^TestC07Continuity$", {"shards": 12, "checks": 12, "timeout": 1500}, {"shards": 14, "checks": 250, "timeout": 3400}),
 ]
 
+JOBS["C19"] = [
+    I("routing", "internal/core", "^TestVerifC19Routing$", {"shards": 6, "checks": 4, "timeout": 1200}, {"shards": 14, "checks": 40, "timeout": 3400}),
+]
+
 LEVELS = {"C13": "fault_enumeration"}
 
 _MACHINE = ("rapid state machine over a network of real beacon handlers: scheme in 5, n in 2..6, t in [n/2+1,n], back-end in {memdb (cap 2000 or 10), bolt trimmed, bolt untrimmed}, period 2..6 s; "
             "actions: tick, sub-period advance, burst of 2-6 periods, advance of a subset (skew/stall), realign, partition/heal, queue mode with generated delivery order and drops, duplicate mode, stop/restart (same or fresh store), "
             "forged partial injection (12 kinds incl. valid-for-clock+k), scripted lying sync peer (13 kinds), sync-stream tap. ")
 RULES = {
+    "C19": "a real DrandDaemon (in-package) hosting 2-3 single-member chains with ids from {default, a, b}, each with its own key and a drawn scheme, optionally one loaded-but-ungrouped id, bolt or memdb storage; started from files written by the harness (migration path), "
+           "fake clock, a few rounds produced. At every point of a drawn history (initial; Shutdown(id); LoadBeacon(id) again; Shutdown(default)) the full matrix is enumerated: beacon id in {nil metadata, absent, default, a, b, u, unknown} x chain hash in "
+           "{absent, hash of each chain, unknown 32 bytes, 5 bytes, the bytes of \"default\"} x endpoint in {PublicRand, ChainInfo, GetIdentity, SyncChain, PublicRandStream, GroupFile} called on the daemon's service methods, plus HTTP (real handler) "
+           "/{hash}/info|public/latest|public/1 for every chain, /info, /public/latest, /public/1, bad hashes, /chains. Oracle: a reference routing function written from the statement says which chain must answer or that the request must be refused; "
+           "an answer is attributed by verifying its signature / chain hash / identity key / group hash under each chain's own key material. Non-trivial: every case; distinct by chain set + storage + history + key seed (each case covers ~600 matrix cells, counted as matrix-cells).",
     "C07": "a running network of real beacon handlers (scheme in 5, n0 in 3..5, t0 in range, 3 back-ends) is reshared by the harness playing internal/core's part: next epoch = fresh polynomial with the same secret, 0..n0-1 leavers, 0..2 joiners, "
            "new threshold in range, transition at round now+2..5; each remainer gets TransitionNewGroup at a drawn tick before the transition, joiners are started with NewHandler+Transition at a drawn tick, leavers keep running with their old shares or are stopped. "
            "Oracle: chain info (hash, key, genesis time/seed, period, scheme, id) identical before/after; C01 (every Put verifies) + C02 (append-only, gap-free, no fork) across rounds rT-3..rT+5; when >= t1 members of the new group hold the new share in time "
@@ -183,6 +192,7 @@ RULES = {
 }
 
 ASSUMPTIONS = {
+    "C19": ["service methods are called in-process (the gRPC transport adds no routing); HTTP goes through the daemon's real handler", "single-member groups (the routing layer does not depend on group size)", "/health excluded: it compares with the wall clock"],
     "C07": ["the harness re-implements core's orchestration (transitionToNext / joinNetwork / leaveNetwork): defects inside those functions are outside this check", "new shares are handed over before round rT-1 is stored (the daemon does so ~10 rounds ahead)",
             "old shares stay shares of the same secret: a threshold of leavers that keeps running can still sign (inherent to resharing, not asserted)", "failed / aborted reshare leaving the old group producing is covered at the DKG level by C08 (records untouched), not with beacons"],
     "C08": ["time-outs (TimedOut state) are not generated: the code has no path into that state besides the operator", "after a partial completion (some nodes finished, some not) the model stops following the history", "nodes in state Left are not proposed again (listed known finding)"],
